@@ -250,12 +250,15 @@ def count_checks(x, parts, bump):
     try:
         lo = Lengths(x.expr).optimize()
         from_meta = type(lo).__name__ == "Literal"
-        ls = new_collection(Lengths(x.expr)).compute(scheduler="sync")
+        # a plan that collapsed to a Literal holds the tuple of lengths itself; only those are compared partition by partition
+        # (computed lengths belong to the optimized plan, whose partition layout may legitimately differ from the unoptimized one)
+        ls = list(lo.operands[0]) if from_meta else list(new_collection(Lengths(x.expr)).compute(scheduler="sync"))
         bump("lengths_checks")
         if from_meta:
             bump("lengths_answered_from_metadata")
-        if sum(int(v) for v in ls) != n_true:
-            return {"oracle": "count_lengths", "symptom": "lengths-differ", "got": [int(v) for v in ls][:20], "exp": n_true, "from_metadata": from_meta}
+        true_ls = [len(p) for p in parts]
+        if sum(int(v) for v in ls) != n_true or (from_meta and len(ls) == len(true_ls) and [int(v) for v in ls] != true_ls):
+            return {"oracle": "count_lengths", "symptom": "lengths-differ", "got": [int(v) for v in ls][:20], "exp": true_ls[:20], "from_metadata": from_meta}
     except Exception:
         bump("lengths_refused")
     if isinstance(x._meta, pd.DataFrame):
